@@ -131,9 +131,10 @@ def minimise_scenario(mod, scn):
 
 
 def write_replay(mod, scn, idx):
-    os.makedirs(os.path.join(core.VERIF_DIR, "replays"), exist_ok=True)
+    rdir = os.environ.get("VERIF_REPLAY_DIR") or os.path.join(core.VERIF_DIR, "replays")
+    os.makedirs(rdir, exist_ok=True)
     name = f"{mod.PROPERTY}-{scn.get('seed', 0)}-{idx}.json"
-    path = os.path.join(core.VERIF_DIR, "replays", name)
+    path = os.path.join(rdir, name)
     with open(path, "w", encoding="utf-8") as fh:
         json.dump(core.jsonable(scn), fh, indent=1, sort_keys=True)
     return path
@@ -311,8 +312,9 @@ def run_check(mod, tier, base_seed, budget_s=None, quiet=False):
             print(f"WARNING: probes at zero: {zero}")
     if harness_error:
         ev["coverage"]["harness_error"] = harness_error
-    os.makedirs(os.path.join(core.VERIF_DIR, "evidence"), exist_ok=True)
-    with open(os.path.join(core.VERIF_DIR, "evidence", f"{mod.PROPERTY}.json"), "w", encoding="utf-8") as fh:
+    edir = os.environ.get("VERIF_EVIDENCE_DIR") or os.path.join(core.VERIF_DIR, "evidence")
+    os.makedirs(edir, exist_ok=True)
+    with open(os.path.join(edir, f"{mod.PROPERTY}.json"), "w", encoding="utf-8") as fh:
         json.dump(core.jsonable(ev), fh, indent=1, sort_keys=True)
     if not quiet:
         print(
